@@ -1,10 +1,15 @@
+//! stdin: one case text per line; stdout: one outcome line per case.
 use std::io::{BufRead, Write};
 fn main() {
+    nbcase::exec::install_quiet_hook();
     let stdin = std::io::stdin();
     let stdout = std::io::stdout();
     let mut out = stdout.lock();
     for line in stdin.lock().lines() {
-        let line = match line { Ok(l) => l, Err(_) => break };
+        let line = match line {
+            Ok(l) => l,
+            Err(_) => break,
+        };
         let r = match nbcase::Case::from_text(&line) {
             Ok(c) => nbcase::exec::exec(&c),
             Err(e) => format!("parse-error {}", e),
